@@ -61,6 +61,9 @@ checks = {
  "C05": ("E3", E3,
    "All pairs of lists over {0,1,2} up to length 3 (thorough 4) incl. nil and empty, all triples up to length 2 (thorough 3), for the slice functions (Union, Intersection, Minus, Difference, IsSubset, IsSuperset, Distinct and the ForInterface twins) and for Stream (Intersection, Minus, Distinct, Extend+Distinct, IsSubset, IsSuperset, and two unions from one derived operand); all pairs of key sets for MapSet; all pairs of key->stream maps over 2 keys x {absent, nil, [], [1], [1 2], [2 2]} for StreamSet (Union, Intersection, MinusStreams, Minus, IsSubsetByKey, IsSupersetByKey). Non-empty operands: membership characterisation, no duplicates, first-operand order, A = (A-B) u (A n B), subset <=> empty difference. All operands: generic and interface{} twin return the same answer, nothing panics, operands unchanged.",
    "Finite alphabets; sets compared by key.", "DESIGN.md §4, §5 C05"),
+ "C17": ("E3", E3,
+   "11 constructors (the 8 named ones and the 3 generic ones) x 7 templates with 0-4 placeholders x all 32 subsets of {x,y,z,w,unused} as PathParam (values 1, \"v\", \"a b\", 3.5; also a nil PathParam) x 3 default headers, plus 7 injected faults / body shapes (serializer, transport, body-read, deserializer, deserializer returning nil, unserialisable body, nil body) over a stub RoundTripper whose response body honours the request context; every returned MonadIO is evaluated twice. Oracle: nothing sent before Eval; exactly one request per Eval with the constructor's method, BaseURL + \"/\" + substituted template, a copy of DefaultHeader plus the declared Content-Type (shared map unchanged even when the transport mutates the request header), the serializer's output as body (multipart bodies re-parsed); target filled; faults surface as Err, never a panic.",
+   "Stub transport instead of sockets; brace-free placeholder values (substitution order irrelevant); the planned map-order seam was not built.", "DESIGN.md §4, §5 C17"),
 }
 
 not_yet = "check not built yet in this round (see DESIGN.md §9 build order); no claim made"
